@@ -68,10 +68,13 @@ def decode(code, nt, nops):
 
 def schedule_of(tr):
     sched = []
+    two_phase = any(e["kind"] == 4 for e in tr["events"])
     for e in sorted(tr["events"], key=lambda e: e["ts"]):
-        # kind 3 = entering the wrapped next (position read), kind 4 = leaving it with an element (position
-        # written); a call that finds the source exhausted has no second step
+        # two-event model: kind 3 = entering the wrapped next (position read), kind 4 = leaving it with an element;
+        # atomic model (no kind-4 events at all): one event stands for entering and leaving
         sched.append(e["t"])
+        if e["kind"] == 3 and not two_phase and e["before"] < tr["len"]:
+            sched.append(e["t"])
     return sched
 
 
